@@ -179,9 +179,44 @@ func lastLines(s string, n int) string {
 	return strings.Join(l, "\n")
 }
 
+// c11Passive: an array's elements change only through an indexed write.  Handing the array (or an
+// alias, or an array holding it) to anything else — every built-in, a user function that only reads,
+// printing, comparison, concatenation — leaves every element exactly what it was, type included.
+func c11Passive(c *Ctx, cs *Case) {
+	c.Begin(cs)
+	probe := Print("a") + " " + Print(BI("len", "a")) + " " + For(Var("i", "0"), "i < "+BI("len", "a"), "i = i + 1", "{ "+Print(`"<" + a[i] + ">"`)+" "+Print("[a[i] == \"12\", a[i] == 12, a[i] == \"\u09e9\", a[i] == 3, a[i] == nil]")+" "+Print(`a[i] == "" + a[i]`)+" }") + " " + Print("b") + " " + Print("holder")
+	pre := Var("a", cs.X["array"]) + "\n" + Var("b", "a") + "\n" + Var("holder", "[a, {in: a}]") + "\n" + Fun("rd", "x", " "+Ret("x[0]")+" ") + "\n"
+	base := RunLib(pre+Print(`"--"`)+"\n"+probe+"\n", RunOpts{MaxSteps: 200000})
+	with := RunLib(pre+cs.X["use"]+"\n"+Print(`"--"`)+"\n"+probe+"\n", RunOpts{MaxSteps: 200000})
+	if CheckAbnormal(c, base) || CheckAbnormal(c, with) {
+		return
+	}
+	if with.Exit != 0 {
+		c.Count("passive_use_rejected", 1) // the use itself is an error: nothing follows it
+		return
+	}
+	cut := func(s string) string {
+		if i := strings.Index(s, "--\n"); i >= 0 {
+			return s[i:]
+		}
+		return s
+	}
+	if base.Exit != 0 || cut(base.Stdout) != cut(with.Stdout) {
+		c.Violate(Violation{Why: "an array's elements changed although nothing wrote to it by index (use: " + cs.X["use"] + ")", Expected: trunc(cut(base.Stdout), 400), Observed: trunc(cut(with.Stdout), 400), Signature: "array-changed-without-write"})
+		return
+	}
+	c.Count("passive_uses_checked", 1)
+	c.Nontrivial(cs.X["array"] + "|" + cs.X["use"])
+	c.Sample(cs.Gen, cs.X["use"])
+}
+
 func c11Judge(c *Ctx, cs *Case) {
 	if cs.Gen == "string-index-consistency" {
 		c11StringIndex(c, cs)
+		return
+	}
+	if cs.Gen == "passive-uses" {
+		c11Passive(c, cs)
 		return
 	}
 	histJudge(c, cs, 1)
@@ -268,9 +303,21 @@ func c11Run(c *Ctx) {
 		}
 		c11Judge(c, cs)
 	}
-	for _, sv := range []string{`"0"`, `"1"`, `"2"`, `"07"`, `"08"`, `"010"`, `"0010"`, `"017"`, `"0x1"`, `"0X10"`, `"0b1"`, `"0o7"`, `"1.0"`, `"2.00"`, `"1e0"`, `"1e1"`, `"\u09e7\u09e6"`, `"\u09e6\u09e7\u09e6"`, `" 1"`, `"1 "`, `"+1"`, `"-0"`, `"1_0"`, `"0.5"`, `"16"`, `"00"`} {
+	for _, sv := range []string{`"0"`, `"1"`, `"2"`, `"07"`, `"08"`, `"010"`, `"0010"`, `"017"`, `"0x1"`, `"0X10"`, `"0b1"`, `"0o7"`, `"1.0"`, `"2.00"`, `"1e0"`, `"1e1"`, "\"\u09e7\u09e6\"", "\"\u09e6\u09e7\u09e6\"", `" 1"`, `"1 "`, `"+1"`, `"-0"`, `"1_0"`, `"0.5"`, `"16"`, `"00"`} {
 		if c.Mine() {
 			c11Judge(c, &Case{Gen: "string-index-consistency", Src: sv, X: map[string]string{"s": sv}})
+		}
+	}
+	// arrays handed to every built-in and to reading code: elements (and their types) stay what they were
+	for _, arr := range []string{"[3, \"12\", \"\u09e7\u09e6\"]", `["5"]`, "[1, 2]", "[\"\u09e9\", 2.5, \"-1\"]", `[nil, ` + True() + `, "x"]`, `[[1, "2"], "3"]`, "[]", `["0", 0, (-0)]`, `["7", "8.5", "1e2"]`} {
+		for _, tgt := range []string{"a", "b", "holder[0]", "holder[1].in"} {
+			for _, use := range []string{BI("max", "%s") + ";", BI("min", "%s") + ";", BI("len", "%s") + ";", BI("append", "%s", "1") + ";", BI("append", "%s", "%s") + ";", BI("remove", "%s", "0") + ";", Print("%s"),
+				Print(`"" + %s`), Print("%s == %s"), "rd(%s);", BI("max", "%s", "1") + ";", BI("min", "[%s]") + ";", BI("abs", "%s[0]") + ";", BI("round", "%s[0]") + ";", BI("sqrt", "%s[0]") + ";", BI("pow", "%s[0]", "2") + ";",
+				Print("%s[0] * 1"), Print("%s[0] + 1"), Print("-%s[0]"), Print("%s[0] | 0"), Print("%s[0] < 5"), Print("[9, 8, 7][%s[0] * 0]"), If("%s[0]", Print(`"t"`)), BI("keys", "{k: %s}") + ";", BI("values", "{k: %s}") + ";", BI("max", BI("append", "%s", "0")) + ";"} {
+				if c.Mine() {
+					c11Judge(c, &Case{Gen: "passive-uses", Src: arr + " | " + use, X: map[string]string{"array": arr, "use": strings.ReplaceAll(use, "%s", tgt)}})
+				}
+			}
 		}
 	}
 	// hand-written: capacity-aliasing patterns and array literal freshness per evaluation
@@ -294,12 +341,12 @@ func c11Run(c *Ctx) {
 func init() {
 	register(&CheckDef{
 		ID:   "C11",
-		Rule: "histories over three array variables with shared ancestry (aliases, an enclosing array H, an object box, a parameter-writing function): 28 non-faulting step kinds (alias, fresh literal, indexed write direct / through a parameter / through a container, এড with 1-3 extra arguments into the same or another variable or via a function, রিমুভ at first / middle / last index, reads) and 33 faulting step kinds (index negative, = length, fractional, string, nil, boolean, 2^31, 2^32, 2^32+1, -(2^32-1), 2^53, 2^63, 2^64, +Inf on read, write and রিমুভ; non-array arguments); every history of <=2 steps, every 4th of <=3 (quick) / every history of <=4 (thorough), each also ended by every faulting step; random histories of 4-34 steps. After every step the program prints every live array, its লেন, arithmetic/comparison on লেন, and an object holding every array ever returned by এড/রিমুভ; every written value is a unique integer. Compared with refborno's pure list model. Non-trivial = distinct decided history.",
+		Rule: "histories over three array variables with shared ancestry (aliases, an enclosing array H, an object box, a parameter-writing function): 28 non-faulting step kinds (alias, fresh literal, indexed write direct / through a parameter / through a container, এড with 1-3 extra arguments into the same or another variable or via a function, রিমুভ at first / middle / last index, reads) and 33 faulting step kinds (index negative, = length, fractional, string, nil, boolean, 2^31, 2^32, 2^32+1, -(2^32-1), 2^53, 2^63, 2^64, +Inf on read, write and রিমুভ; non-array arguments); every history of <=2 steps, every 4th of <=3 (quick) / every history of <=4 (thorough), each also ended by every faulting step; random histories of 4-34 steps. After every step the program prints every live array, its লেন, arithmetic/comparison on লেন, and an object holding every array ever returned by এড/রিমুভ; every written value is a unique integer. Compared with refborno's pure list model. Plus: 8 arrays (numeric strings in both scripts, nested, signed zeros) x 4 ways of reaching them x 26 uses that do not write by index (every built-in, printing, comparison, concatenation, arithmetic and conditions on an element, a reading function): the elements and their types must afterwards be what they are without that use. Non-trivial = distinct decided history.",
 		Assumptions: []string{"numeric-looking string indexes are out of domain"},
 		Run:         c11Run,
 		Judge:       c11Judge,
 		MustCount: func(c *Ctx) []string {
-			out := []string{"histories_clean", "histories_ending_in_fault", "gen:random-long-histories", "cli_runs", "fault:BadIndex", "fault:BuiltinFailure", "string_index_consistent"}
+			out := []string{"histories_clean", "histories_ending_in_fault", "gen:random-long-histories", "cli_runs", "fault:BadIndex", "fault:BuiltinFailure", "string_index_consistent", "passive_uses_checked"}
 			for _, o := range c11Ops() {
 				out = append(out, "op:"+o.name)
 			}
